@@ -12,7 +12,7 @@ GNext ==
   \/ \E h \in Handles, k \in Keys : NotifyRead(h, k) /\ trace' = Append(trace, [op |-> "notify", h |-> h, key |-> k])
   \/ Apply /\ trace' = (IF cmdQ' = <<>> THEN Append(trace, [op |-> "drain", resp |-> resp', db |-> db']) ELSE trace)
 GSpec == GInit /\ [][GNext]_gvars
-\* only emit at quiescent points (everything applied), so the last step is a drain
-EmitBeh == (Len(trace) < Depth \/ cmdQ # <<>>) \/ PrintT(<<"BEHAVIOUR", ToJson(trace)>>)
+\* emit when the behaviour is complete: MaxOps commands enqueued and all of them applied (the last step is a drain)
+EmitBeh == ~(Len(log) = MaxOps /\ cmdQ = <<>>) \/ PrintT(<<"BEHAVIOUR", ToJson(trace)>>)
 StopAtDepth == Len(trace) <= Depth
 ====
